@@ -254,6 +254,9 @@ class RealWorld:
                     kw["unit"] = op["unit"]
                 getattr(ds, "add_" + op["kind"])(op["path"], val=val, write_level=LEVELS[op["level"]], **kw)
                 return "ok", "-"
+            if o == "addcoll":
+                ds.add_collection(op["path"], write_level=LEVELS[op["level"]])
+                return "ok", "-"
             if o == "del":
                 del ds[op["path"]]
                 return "ok", "-"
@@ -314,6 +317,8 @@ def op_tokens(op) -> List[str]:
                 ref_token(op.get("other")), ref_token(op.get("ref_pos"))]
     if o == "add":
         return ["add", str(op["d"]), op["path"], op["kind"], ref_token(op["val"]), op.get("unit") or "-", str(op["level"])]
+    if o == "addcoll":
+        return ["addcoll", str(op["d"]), op["path"], str(op["level"])]
     if o == "del":
         return ["del", str(op["d"]), op["path"]]
     if o == "subset":
